@@ -25,6 +25,9 @@ def run(ctx):
     from .. import buildmodel as bm
     ctx.add_extra_unit(os.path.join(bm.VERIF, 'fixtures', 'instantiate_all.cpp'))
     for cfg, prog in ctx.programs().items():
+        from .. import lanes
+        nl = lanes.rule_bigendian_io(ctx, cfg, prog)
+        ctx.floor('R-LANES byte-order routines[%s]' % cfg, nl, 3)
         fl = fieldlayer.rule_field_layer(ctx, cfg, prog)
         ctx.floor('R-FIELDLAYER representation writes inside the field layer[%s]' % cfg, fl, 10)
         n = consts.rule_field_constants(ctx, cfg, prog)
@@ -32,6 +35,9 @@ def run(ctx):
         guards.canon_tables(ctx, cfg, prog)
         ns = nowrap.rule_nowrap(ctx, cfg, prog)
         wa = asmsem.rule_wordalg(ctx, cfg, os.path.join(ctx.outdir, 'asm'))
+        from .. import cppword
+        wc = cppword.rule_wordalg_cpp(ctx, cfg, prog)
+        ctx.floor('R-WORDALG/c++ routine x aliasing instances[%s]' % cfg, wc, 35)
         if cfg == 'x64-asm':
             ctx.floor('R-WORDALG routine x aliasing instances[%s]' % cfg, wa, 25)
         ctx.floor('R-NOWRAP unsigned additions[%s]' % cfg, ns, 15)
